@@ -2,7 +2,7 @@
 (* thorough tier: cutoffs rc2 = 8, 9, 10 (irrational, exact, irrational); for every cutoff four box
    edges per direction giving 1, 2, 3, 4 cells, all 64 combinations, for the sweeps as well; sweeps
    over every lattice point of the box (and a margin outside); all 26 neighbour displacements around
-   a wrap corner and an inner cell corner; more triclinic boxes; 3 and 4 beads from 6 points.       *)
+   a wrap corner and an inner cell corner; more triclinic boxes; 3 beads from 6 points, 4 beads from 5 points.       *)
 EXTENDS NbGridMC, IOUtils
 
 Family == IF "FAMILY" \in DOMAIN IOEnv THEN IOEnv.FAMILY ELSE "tiny"
@@ -14,8 +14,7 @@ LCof(rc2) == IF rc2 = 8 THEN {4, 8, 11, 13} ELSE IF rc2 = 9 THEN {5, 8, 11, 14} 
 LLof(rc2) == LAof(rc2) \X LBof(rc2) \X LCof(rc2)
 
 Sweep(rc2) == SweepInit(LLof(rc2), rc2, LAMBDA L : (-3..(L + 2)) \cup {-L - 1, -L, 2 * L, 2 * L + 1},
-                        LAMBDA L : {-4, -3, -2, -1, 1, 2, 3, 4, L - 3, L - 2, L - 1, L, L + 1, 3 - L, 2 - L, 1 - L, -L, -L - 1,
-                                    2 * L - 1, 1 - 2 * L},
+                        LAMBDA L : {-4, -3, -2, -1, 1, 2, 3, 4, L - 2, L - 1, L + 1, 2 - L, 1 - L, -L - 1},
                         {<<-1, 1>>}, {<<0, 0>>, <<1, 2>>})
 Diag == ({-1, 0, 1} \X {-1, 0, 1} \X {-1, 0, 1}) \ {<<0, 0, 0>>}
 InnerEdge(L, rc2) == CeilDiv(L, CellsOf(L, rc2))         \* first lattice point at or above the first inner cell boundary
@@ -44,6 +43,7 @@ MultiBR == { [B |-> MkBox(6, 0, 7, 0, 0, 8), rc2 |-> 9], [B |-> MkBox(12, 0, 9, 
 MultiBRa == { [B |-> MkBox(6, 0, 7, 0, 0, 8), rc2 |-> 9], [B |-> MkBox(12, 0, 9, 0, 0, 7), rc2 |-> 9] }
 MultiBRb == { [B |-> MkBox(10, 0, 13, 0, 0, 11), rc2 |-> 10], [B |-> MkBox(12, 6, 10, -6, 5, 13), rc2 |-> 9] }
 Cluster(B) == { <<0, 0, 0>>, <<2, 0, 0>>, <<-2, -1, 1>>, <<0, 3, 0>>, <<B.a[1] - 1, 1, 1>>, <<1, 1, B.c[3] + 1>> }
+Cluster5(B) == { <<0, 0, 0>>, <<2, 0, 0>>, <<-2, -1, 1>>, <<0, 3, 0>>, <<B.a[1] - 1, 1, 1>> }
 Tops == { [typ |-> <<1, 2, 2, 3>>, mol |-> <<1, 1, 1, 1>>, ias |-> << <<1, 2>>, <<2, 3, 4>> >>],
           [typ |-> <<1, 1, 2, 3>>, mol |-> <<1, 1, 2, 2>>, ias |-> << <<1, 2>>, <<2, 3>>, <<3, 4>> >>],
           [typ |-> <<2, 1, 3, 2>>, mol |-> <<1, 1, 1, 2>>, ias |-> << <<3, 1>>, <<1, 4>> >>],
@@ -55,8 +55,8 @@ MCFamilies ==
     [] Family = "corners8" -> Corners(8) [] Family = "corners9" -> Corners(9) [] Family = "corners10" -> Corners(10)
     [] Family = "tric" -> TricInit(TricBR1, TricP1, TricD) [] Family = "tric2" -> TricInit(TricBR2, TricP1, TricD)
     [] Family = "multi3" -> MultiInit(MultiBR, Cluster, Tops, 3)
-    [] Family = "multi4a" -> MultiInit(MultiBRa, Cluster, Tops, 4)
-    [] Family = "multi4b" -> MultiInit(MultiBRb, Cluster, Tops, 4)
+    [] Family = "multi4a" -> MultiInit(MultiBRa, Cluster5, Tops, 4)
+    [] Family = "multi4b" -> MultiInit(MultiBRb, Cluster5, Tops, 4)
     [] OTHER -> TinyInit(MultiBR, Cluster)
 Init == ph = 0 /\ MCFamilies
 ====
